@@ -22,7 +22,7 @@ class SolverMgr:
     query containing a term outside that translation goes to the bit-vector
     engine.  `xcheck` re-decides every n-th query on the other engine."""
 
-    def __init__(self, timeout_ms, max_lits=1200, xcheck=0):
+    def __init__(self, timeout_ms, max_lits=400, xcheck=0):
         self.timeout_ms = timeout_ms
         self.max_lits = max_lits
         self.resets = 0
@@ -34,6 +34,7 @@ class SolverMgr:
         self.n_x_skipped = 0
         self.n_escalated = 0
         self.bl_cache = {}
+        self.debug = False
         self.reset()
 
     def reset(self):
@@ -96,7 +97,7 @@ class SolverMgr:
         if r == z3.sat:
             mi = self.si.model()
             m = z3.Model()
-            for iv, x, bits in self.tr.vars.values():
+            for iv, x, bits, lo_, hi_ in self.tr.vars.values():
                 v = mi.eval(iv, model_completion=True)
                 m.update_value(x, z3.BitVecVal(v.as_long(), bits))
         return r, m
@@ -134,6 +135,11 @@ class SolverMgr:
             seen.add(i)
             if z3.is_app(e):
                 kk = e.decl().kind()
+                if kk == z3.Z3_OP_CONCAT:
+                    from .bv2int import is_sext_idiom
+                    if is_sext_idiom(e):
+                        stack.append(e.children()[-1])
+                        continue
                 if kk in bitops:
                     res = True
                     break
@@ -144,6 +150,8 @@ class SolverMgr:
                         break
                 stack.extend(e.children())
         self.bl_cache[k] = (res, c)
+        if res and self.debug:
+            sys.stderr.write('BITLEVEL %s\n' % c.sexpr()[:600])
         return res
 
     def _run(self, engine, pc, extra, timeout_ms):
@@ -177,10 +185,22 @@ class SolverMgr:
         m = None
         engine = None
         for eng, to in plan:
+            t0 = time.time()
             r, m = self._run(eng, pc, extra, to)
+            if self.debug:
+                sys.stderr.write('Q eng=%s to=%d r=%s dt=%.3f pc=%d lits=%d/%d\n' % (eng, to, r, time.time() - t0, len(pc), len(self.lits_i), len(self.lits_b)))
             if r is None:
                 r = z3.unknown
                 continue
+            if r == z3.unknown or time.time() - t0 > 0.03:
+                # accumulated stale constraints make the incremental solver slow: start afresh
+                fresh_needed = r == z3.unknown
+                self.reset()
+                if fresh_needed:
+                    r, m = self._run(eng, pc, extra, to)
+                    if r is None:
+                        r = z3.unknown
+                        continue
             if r != z3.unknown:
                 engine = eng
                 break
@@ -189,7 +209,7 @@ class SolverMgr:
             raise Inconclusive('solver returned unknown on both engines within %d ms' % full)
         if self.xcheck and self.nq % self.xcheck == 0:
             other = 'bv' if engine == 'int' else 'int'
-            r2, m2 = self._run(other, pc, extra, 3000)
+            r2, m2 = self._run(other, pc, extra, 400)
             if r2 is None or r2 == z3.unknown:
                 self.n_x_skipped += 1
             else:
@@ -1130,13 +1150,13 @@ class Executor:
             xb = as_bool(x)
             yb = as_bool(y)
             if op == 'and':
-                return norm(z3.And(xb, yb))
+                return fold(z3.And(xb, yb))
             if op == 'or':
-                return norm(z3.Or(xb, yb))
+                return fold(z3.Or(xb, yb))
             if op == 'xor':
-                return norm(z3.Xor(xb, yb))
+                return fold(z3.Xor(xb, yb))
             if op == 'add' or op == 'sub':
-                return norm(z3.Xor(xb, yb))
+                return fold(z3.Xor(xb, yb))
             raise MachineryError('i1 ' + op)
         if op in ('and', 'or', 'xor'):
             # keep 0/1-valued words boolean: zext(b1) & zext(b2) -> zext(b1 && b2)
@@ -1150,10 +1170,10 @@ class Executor:
                         r = z3.Or(bx, by)
                     else:
                         r = z3.Xor(bx, by)
-                    r = z3.simplify(r)
-                    if z3.is_true(r):
+                    rs = z3.simplify(r)
+                    if z3.is_true(rs):
                         return 1
-                    if z3.is_false(r):
+                    if z3.is_false(rs):
                         return 0
                     return z3.If(r, z3.BitVecVal(1, bits), z3.BitVecVal(0, bits))
         if type(y) is int:
@@ -1260,8 +1280,12 @@ class Executor:
         if b is not None:
             return b if tb == 1 else z3.If(b, z3.BitVecVal(1, tb), z3.BitVecVal(0, tb))
         if tb == 1:
-            return norm(z3.Extract(0, 0, v) == 1)
-        return norm(z3.Extract(tb - 1, 0, v))
+            return fold(z3.Extract(0, 0, v) == 1)
+        if z3.is_app_of(v, z3.Z3_OP_SIGN_EXT) or z3.is_app_of(v, z3.Z3_OP_ZERO_EXT):
+            inner = v.arg(0)
+            if inner.size() == tb:
+                return inner
+        return fold(z3.Extract(tb - 1, 0, v))
 
     def sym_select(self, c, a, b, bits):
         if c is UNDEF:
@@ -1271,7 +1295,7 @@ class Executor:
             # fork instead of building an ite over undef
             return a if self.branch(c) else b
         if bits == 1:
-            return norm(z3.If(c, as_bool(a), as_bool(b)))
+            return fold(z3.If(c, as_bool(a), as_bool(b)))
         return z3.If(c, bv(a, bits), bv(b, bits))
 
     def sym_add_const(self, b, off):
@@ -1317,6 +1341,12 @@ class Executor:
                 self.violation('mem', 'null-deref', 'NULL pointer dereference (offset %d)' % a)
             self.violation('mem', 'wild-pointer', 'access through invalid pointer 0x%x' % a)
         off = a & OFF_MASK
+        if off >= 0x80000000:
+            # a negative offset from the following object id: underflow of that object
+            o2 = st.objs.get(oid + 1)
+            if o2 is not None:
+                self.violation('mem', 'out-of-bounds', 'access %d bytes before the start of %s object %s (size %d)'
+                               % (0x100000000 - off, o2.kind, o2.site, o2.size))
         if not o.alive:
             self.violation('mem', 'use-after-free' if o.kind != 'dead-stack' else 'use-after-return',
                            'access to %s object (was %s) at offset %d' % (o.kind, o.site, off))
@@ -1617,8 +1647,17 @@ class Executor:
             sat, m = self.solver.check(pc, extra)
         finally:
             dt = time.time() - t
-            if dt > 0.5 and self.opts.get('slowlog'):
+            if self.opts.get('slowlog') and dt > self.opts['slowlog']:
                 sys.stderr.write('SLOW %.2fs kind=%s pc=%d/%d extra=%s\n' % (dt, kind, len(pc), len(st.pc), str(extra)[:300]))
+                if self.opts.get('slowdump'):
+                    ss = z3.Solver()
+                    for c in pc:
+                        ss.add(self.solver.tr.t(c))
+                    if extra is not None:
+                        ss.add(self.solver.tr.t(extra))
+                    for sc in self.solver.tr.side.values():
+                        ss.add(sc)
+                    open(self.opts['slowdump'] + str(int(dt * 100)), 'w').write(ss.to_smt2())
             s = self.stats
             s.t_solver += dt
             if dt > s.max_query:
@@ -1665,10 +1704,10 @@ class Executor:
             a = c.arg(0)
             kn[a.get_id()] = (0 if val else 1, a)
 
-    def add_constraint(self, c):
+    def add_constraint(self, c, cs=None):
         st = self.st
         st.pc.append(c)
-        self.learn(c)
+        self.learn(cs if cs is not None else z3.simplify(c))
         m = st.model
         if m is not None and not z3.is_true(m.eval(c, model_completion=True)):
             st.model = None
@@ -1713,7 +1752,7 @@ class Executor:
             st.decisions.append((kind, val))
         return val
 
-    def _fork_reexec(self, kind, val, constraint=None, model=None):
+    def _fork_reexec(self, kind, val, constraint=None, model=None, simplified=None):
         """clone the current state so that the clone re-executes the current
         instruction and takes alternative `val` at this decision point"""
         st = self.st
@@ -1728,9 +1767,10 @@ class Executor:
             clone.pc.append(constraint)
             clone.model = model
             kn = clone.known
-            kn[constraint.get_id()] = (1, constraint)
-            if z3.is_not(constraint):
-                a = constraint.arg(0)
+            sc = simplified if simplified is not None else constraint
+            kn[sc.get_id()] = (1, sc)
+            if z3.is_not(sc):
+                a = sc.arg(0)
                 kn[a.get_id()] = (0, a)
         clone.nforks += 1
         self.worklist.append(clone)
@@ -1739,26 +1779,30 @@ class Executor:
         return self.split_depth is not None and self.st.nforks >= self.split_depth
 
     def branch(self, c):
-        """c: symbolic i1.  Returns 0/1 for the current state; may fork."""
+        """c: symbolic i1.  Returns 0/1 for the current state; may fork.
+        The simplified form is used only to detect constants and as the key of
+        the known-facts cache; the constraint itself keeps its original shape
+        (z3.simplify expands sign extensions into bit-level concatenations,
+        which would push arithmetic queries onto the bit-blasting engine)."""
         if c is UNDEF:
             self.violation('mem', 'uninit-use', 'branch on uninitialised value')
         if not isinstance(c, BoolRef):
             c = as_bool(c)
-        c = z3.simplify(c)
-        if z3.is_true(c):
+        cs = z3.simplify(c)
+        if z3.is_true(cs):
             return 1
-        if z3.is_false(c):
+        if z3.is_false(cs):
             return 0
         st = self.st
         if st.pending:
             return self._pop_pending('b')
-        kn = st.known.get(c.get_id())
+        kn = st.known.get(cs.get_id())
         if kn is not None:
             self.stats.known_hits += 1
             return kn[0]
         d = self.next_forced('b')
         if d is not None:
-            self.add_constraint(c if d else z3.Not(c))
+            self.add_constraint(c if d else z3.Not(c), cs if d else z3.Not(cs))
             st.decisions.append(('b', d))
             self._idecs().append(d)
             return d
@@ -1774,17 +1818,22 @@ class Executor:
             self.stats.infeasible += 1
             st.decisions.append(('b', v))
             self._idecs().append(v)
-            self.learn(c, v)
+            self.learn(cs, v)
             return v
         # both feasible: fork
         if self._splitting():
             self.prefixes.append(st.decisions + [('b', v)])
             self.prefixes.append(st.decisions + [('b', 1 - v)])
             raise PathEnd('split')
-        self._fork_reexec('b', 1 - v, other, m2)
+        if self.opts.get('forklog') is not None:
+            loc, stack = self.cur_loc()
+            key = '%s:%s %s' % (loc[0].split('/')[-1] if loc and loc[0] else '?', loc[1] if loc else '?', stack[-1])
+            fl = self.opts['forklog']
+            fl[key] = fl.get(key, 0) + 1
+        self._fork_reexec('b', 1 - v, other, m2, z3.Not(cs) if v else cs)
         st.nforks += 1
         st.pc.append(c if v else z3.Not(c))
-        self.learn(c, v)
+        self.learn(cs, v)
         st.decisions.append(('b', v))
         self._idecs().append(v)
         return v
